@@ -3,12 +3,10 @@
 package main
 
 import (
-	"context"
 	"fmt"
 	"reflect"
 	"strings"
 	"sync"
-	"time"
 
 	"github.com/pingcap/kvproto/pkg/kvrpcpb"
 	"github.com/tikv/client-go/v2/config"
@@ -100,14 +98,21 @@ func keyList(side string, m interface{}) string {
 
 func runPool(seed int64) {
 	k := getCodec("x", 0x0102FF)
-	for _, mode := range []string{"batch-sync", "batch-async", "unary-sync"} {
+	for _, mode := range []string{"batch-sync", "batch-async", "unary-sync", "batch-sync-v1", "unary-sync-v1"} {
 		func() {
-			if mode == "unary-sync" {
+			v1 := strings.HasSuffix(mode, "-v1")
+			unaryMode := strings.HasPrefix(mode, "unary")
+			if unaryMode {
 				defer config.UpdateGlobal(func(conf *config.Config) { conf.TiKVClient.MaxBatchSize = 0 })()
 			}
 			store := newGenStore()
 			defer store.srv.Stop()
 			spy := &spyCodec{Codec: mustCodec(apicodec.ModeTxn, k.id), ids: map[*tikvrpc.Request]int{}}
+			if v1 {
+				// the codec v1 plumbing has the same request pool; it never writes into a message except for the two
+				// commands whose message carries its own api fields (setAPICtx)
+				spy.Codec = apicodec.NewCodecV1(apicodec.ModeTxn)
+			}
 			rpc := client.NewRPCClient(client.WithCodec(spy))
 			defer rpc.Close()
 			type caller struct {
@@ -129,7 +134,7 @@ func runPool(seed int64) {
 						unary = true
 					}
 				}
-				if (mode != "unary-sync" && !batchable) || (mode == "unary-sync" && !unary) {
+				if (!unaryMode && !batchable) || (unaryMode && !unary) {
 					continue
 				}
 				f := fill("req", ci.ReqType, reqSentinel("0"))
@@ -141,12 +146,19 @@ func runPool(seed int64) {
 						nkeys++
 					}
 				}
+				// the codec writes into the message: key-bearing fields (v2), or the message's own api_version / keyspace
+				// fields (CompactRequest; the task meta of DispatchMPPTask) - both codecs
 				_, ownAPI := ci.ReqType.Elem().FieldByName("ApiVersion")
-				c := &caller{ci: ci, req: req, msg0: req.Req, keyed: nkeys > 0 || ownAPI, tname: ci.ReqType.Elem().Name()}
+				ownAPI = ownAPI || ci.T == tikvrpc.CmdMPPTask
+				c := &caller{ci: ci, req: req, msg0: req.Req, keyed: (nkeys > 0 && !v1) || ownAPI, tname: ci.ReqType.Elem().Name()}
 				callers = append(callers, c)
 				spy.id(req) // callers own the first ids
 			}
-			fmt.Fprintf(out, "pool\tbegin\t%s\t%d\n", mode, len(callers))
+			ver := "v2"
+			if v1 {
+				ver = "v1"
+			}
+			fmt.Fprintf(out, "pool\tbegin\t%s\t%d\t%s\n", mode, len(callers), ver)
 			for i, c := range callers {
 				fmt.Fprintf(out, "pool\tcaller\t%d\t%s\t%d\t%s\n", i, c.ci.Name, b2i(c.keyed), keyList("req", c.req.Req))
 			}
@@ -157,16 +169,31 @@ func runPool(seed int64) {
 					spy.mu.Lock()
 					spy.enc, spy.dec = nil, nil
 					spy.mu.Unlock()
+					// error path (unary modes, second round, every other caller): the store fails the call after seeing it, so
+					// SendRequest returns before DecodeResponse and the encoded request is not recycled; the third round re-sends
+					failing := unaryMode && round == 1 && i%2 == 0
+					if failing {
+						store.mu.Lock()
+						store.failNext[c.tname] = true
+						store.mu.Unlock()
+					}
 					var err error
 					if mode == "batch-async" {
 						err = rpcSendAsync(rpc, store.addr, c.req)
 					} else {
-						_, err = rpc.SendRequest(context.Background(), store.addr, c.req, 5*time.Second)
+						_, err = safeSend(rpc, store.addr, c.req)
 					}
 					ws := store.takeAll(c.tname)
 					spy.mu.Lock()
 					encs, decs := spy.enc, spy.dec
 					spy.mu.Unlock()
+					if failing && err != nil && len(ws) == 1 && len(encs) == 1 && len(decs) == 0 {
+						decs = []int{-1}
+						err = nil
+					} else if failing {
+						fmt.Fprintf(out, "pool\tsend\t%d\t%s\terror\tscripted failure: err=%v wires=%d encodes=%d decodes=%d\n", i, c.ci.Name, err, len(ws), len(encs), len(decs))
+						continue
+					}
 					if err != nil || len(ws) != 1 || len(encs) != 1 || len(decs) != 1 {
 						fmt.Fprintf(out, "pool\tsend\t%d\t%s\terror\t%v wires=%d encodes=%d decodes=%d\n", i, c.ci.Name, err, len(ws), len(encs), len(decs))
 						continue
